@@ -100,7 +100,7 @@ def createValue (sv : Nat → Chars) (s : Scalar) (v : Val) : GoVal :=
   | .str => .str (Model.toStr sv v)
   | .bool => .bool (Model.toBool v)
   | .int _ | .uint _ => .int (toInt (Model.toNum sv v))
-  | .float _ => .float (Model.toNum sv v)
+  | .float bits => .float (if bits == 32 then Num.toFloat32 (Model.toNum sv v) else Model.toNum sv v)
 
 -- the size of a type, for the fuel of the mutual recursion through `reflect.New` + `unmarshal`
 mutual
